@@ -65,7 +65,8 @@ class StaticCondensation(Module):
     def _response(self, A):
         self.n = np.shape(A)[0]
         self.module_LinSolve.sig_in[0].state = A[self.f, ...][..., self.f]
-        self.module_LinSolve.sig_in[1].state = A[self.f, ...][..., self.m].todense()
+        Afm = A[self.f, ...][..., self.m]
+        self.module_LinSolve.sig_in[1].state = Afm.toarray() if sps.issparse(Afm) else Afm
         self.module_LinSolve.response()
         self.X = self.module_LinSolve.sig_out[0].state
         return A[self.m, ...][..., self.m] - A[self.m, ...][..., self.f] @ self.X
